@@ -857,7 +857,7 @@ class Check(common.Check):
 
 Check.THEOREMS = ['Sc3Verif.C06.' + t for t in (
     'msg_roundtrip', 'nestRun_iff_flat', 'bundle_roundtrip', 'packet_roundtrip', 'packet_order', 'nested_msg_blob',
-    'nested_bundle_blob', 'coercions', 'refused_not_altered', 'representable_accepted', 'accepted_parses',
+    'nested_bundle_blob', 'coercions', 'validUtf8_string', 'refused_not_altered', 'representable_accepted', 'accepted_parses',
     'aligned4', 'string_blob_layout', 'message_layout', 'big_endian', 'element_size_prefix', 'frame_reads_back',
     'predict_ge_real_msg', 'predict_ge_real_bundle', 'clump_concat', 'clump_within_limit',
     'send_clumped_within_limit', 'sync_within_limit', 'decoder_total')]
